@@ -2013,6 +2013,8 @@ class ExperimentConfigurationFactory(object):
                     f"Unknown error {e} while parsing manifest {manifest}"))
 
         if manifest is not None:
+            # VV: the dictionary belongs to the caller (who may re-use it for another package), layer on a copy
+            manifest = dict(manifest)
             manifest.update(implied_manifest)
         else:
             manifest = implied_manifest
